@@ -23,5 +23,5 @@ for d in sorted(glob.glob("/verif/seeded/*/meta.json")):
             hits.append(f"**{pid}** ({kinds})" if kinds else f"**{pid}**")
         elif v.get("rc") not in (0, None):
             hits.append(f"{pid}: exit {v.get('rc')}")
-    origin = "sub-agent r1" if re.match(r"C\d\d-[AB]$", sid) else ("sub-agent r2" if re.match(r"C\d\d-[CD]$", sid) else ("sub-agent r3" if sid.startswith("R3-") else ("sub-agent r4" if re.match(r"C\d\d-[EF]$", sid) else ("sub-agent r5" if sid.startswith("R5-") else ("sub-agent r6" if sid.startswith("R6-") else ("sub-agent r7" if sid.startswith("R7-") else "hand-written"))))))
+    origin = "sub-agent r1" if re.match(r"C\d\d-[AB]$", sid) else ("sub-agent r2" if re.match(r"C\d\d-[CD]$", sid) else ("sub-agent r3" if sid.startswith("R3-") else ("sub-agent r4" if re.match(r"C\d\d-[EF]$", sid) else ("sub-agent r5" if sid.startswith("R5-") else ("sub-agent r6" if sid.startswith("R6-") else ("sub-agent r7" if sid.startswith("R7-") else ("sub-agent r8" if sid.startswith("R8-") else "hand-written")))))))
     print(f"| {sid} | {m['breaks_property']} | {origin} | {m['needs_to_manifest']} | {'; '.join(hits) if hits else 'NOT REPORTED'} |")
